@@ -400,6 +400,51 @@ func run(r *mon.Run) {
 			}
 		}
 	}
+	// fields that agree with each other about bytes the input does not have: responses-section length + last index
+	// length + last body length enlarged by the same k (beyond the read buffer's spare capacity too), alone and in files
+	// that carry an unknown section of U bytes at every position
+	for bi, spec := range []*rbundle.BSpec{
+		{Version: "b2", Primary: "https://example.com/", Exchanges: []rbundle.BExchange{{URL: "https://example.com/", Status: "200", Headers: []rbundle.BHeader{{Name: "content-type", Value: "text/plain"}}, Body: []byte("hello")}, {URL: "https://example.com/b", Status: "404", Body: []byte("x")}}},
+		{Version: "b1", Primary: "https://example.com/", Manifest: "https://example.com/m", Exchanges: []rbundle.BExchange{{URL: "https://example.com/", Status: "200", Body: []byte("hello")}}},
+	} {
+		last := len(spec.Exchanges) - 1
+		for _, U := range []int{-1, 0, 8, 300, 70000} {
+			npos := 1
+			if U >= 0 {
+				npos = len(spec.DefaultOrder())
+			}
+			for pos := 0; pos < npos; pos++ {
+				t := *spec
+				if U >= 0 {
+					order := spec.DefaultOrder()
+					t.SectionOrder = append(append(append([]string{}, order[:pos]...), "x-filler"), order[pos:]...)
+					t.Raw = map[string][]byte{"x-filler": bytes.Repeat([]byte{0x5a}, U)}
+				}
+				_, fs := t.Build(nil)
+				var lenRole, respSecRole string
+				var respSec rbundle.Field
+				for _, f := range fs {
+					if f.Ex == last && strings.HasPrefix(f.Role, "index-len") {
+						lenRole = f.Role
+					}
+					if strings.HasPrefix(f.Role, "seclen[responses#") {
+						respSecRole, respSec = f.Role, f
+					}
+				}
+				bodyRole := fmt.Sprintf("resp-body-bstr[%d]", last)
+				bodyF, _ := rbundle.FieldByRole(fs, bodyRole)
+				lenF, _ := rbundle.FieldByRole(fs, lenRole)
+				for _, k := range []uint64{1, 7, 100, 600, 2000, 69000, 70000, 70001, 200000} {
+					ov := map[string]rbundle.Ov{respSecRole: {Val: respSec.True + k, Info: -1}, lenRole: {Val: lenF.True + k, Info: -1}, bodyRole: {Val: bodyF.True + k, Info: -1}}
+					x, _ := t.Build(ov)
+					readBundle(fmt.Sprintf("consistent-overrun#%d/U=%d/at%d/k=%d", bi, U, pos, k), x)
+					if len(x) > 9 {
+						readBundle(fmt.Sprintf("consistent-overrun#%d/U=%d/at%d/k=%d/no-trailer", bi, U, pos, k), x[:len(x)-9])
+					}
+				}
+			}
+		}
+	}
 	// several defects at once: the same field of EVERY response / index entry overridden in one file (a reader that
 	// handles one bad response may still go wrong - or never come back - when there are several)
 	{
